@@ -37,6 +37,8 @@ def old_text(slot, cls, tlay):
     """Text of the operand that is being replaced, for target layouts tpar / tneed."""
     if slot == 'Call.args.sologen':
         return cat.SOLOGEN_OLD if tlay == 'bare' else None
+    if slot in cat.OLD:
+        return {'tpar': '(' + cat.OLD[slot] + ')', 'tneed': None}.get(tlay, cat.OLD[slot])
     if tlay == 'tpar':
         return '(HOLE)'
     if tlay == 'tneed':
@@ -49,13 +51,13 @@ def old_text(slot, cls, tlay):
 def template(slot, cls, tlay):
     """(source, offset, length, path, preS-ast) or None when the layout does not exist / is not valid Python."""
     base = tlay if tlay in ('bslash', 'encl', 'enclc') else 'bare'
-    r0 = cat.render(slot, base, 'HOLE')
+    r0 = cat.render(slot, base, cat.OLD.get(slot, 'HOLE'))
     if r0 is None:
         return None
     t0 = try_parse(r0[0])
     if t0 is None:
         return None
-    path = cat.find_hole(t0)
+    path = cat.PATH[slot] if slot in cat.PATH else cat.find_hole(t0)
     if path is None:
         return None
     old = old_text(slot, cls, tlay)
@@ -114,9 +116,10 @@ def gram_event(tab: Tables, slot, cls, child):
     ev = {'call': 'gram', 'slot': slot, 'child': child, 'cls': f'{slot}|{child}', 'preS': tab.sid(tree),
           'path': _path_json(path + ([('pattern', None)] if fill else [])), 'newS': new,
           'r00': rend(one, False), 'r10': rend(ptxt, False), 'r01': rend(one, True), 'r11': rend(ptxt, True),
+          'rblank': rend(' ' + one, False) if cat.is_fstring_slot(slot) else -1,
           'r20': rend('(' + ptxt + ')', False) if ptxt and not fill and child not in cat.NO_PAR_FORM else -1,
           'mlS': -1, 'mlNewS': 0, 'comp00': -1, 'comp10': -1, 'depth': cat.depth_at(src, *_lc(src, off)), 'selfEnc': True}
-    if child in ('Starred', 'StarredOr') and not fill:
+    if (child in ('Starred', 'StarredOr') or (child == 'JoinedStr' and slot in cat.OLD)) and not fill:
         for key, t in (('comp00', one), ('comp10', ptxt)):
             if t and rend(t, False) > 0:
                 body = _splice(src, off, ln, t)
@@ -181,7 +184,7 @@ def put_event(tab: Tables, slot, cls, child, tlay, clay, form, api):
 
     root = FST(src, 'exec')
     tgt = _walk(root.a, path).f
-    outcome, exc, post = 'ok', '', src
+    outcome, exc = 'ok', ''
     try:
         if fill:
             if api == 'put':
@@ -202,10 +205,10 @@ def put_event(tab: Tables, slot, cls, child, tlay, clay, form, api):
                 setattr(par, f, code)
             else:
                 getattr(par, f)[k] = code
-        post = root.src
     except Exception as e:  # noqa: BLE001
         outcome, exc = 'raise', f'{type(e).__name__}: {str(e)[:120]}'
-    ptree = try_parse(post) if outcome == 'ok' else None
+    post = root.src  # also after a refusal: the source the tree is left with
+    ptree = try_parse(post)
     R = cat.sig_tokens(post) if outcome == 'ok' else None
     ctx_kept, outer, outer_br, inner, ctx_sub = False, 0, 0, 0, False
     if R is not None:
@@ -222,7 +225,7 @@ def put_event(tab: Tables, slot, cls, child, tlay, clay, form, api):
             'preS': tab.sid(tree), 'path': _path_json(path + ([('pattern', None)] if fill else [])), 'newS': new,
             'depth': cat.depth_at(src, line, col), 'ml': '\n' in text, 'selfEnc': cat.self_enclosed(text),
             'outcome': outcome, 'exc': exc, 'postS': tab.sid(ptree) if ptree is not None else 0,
-            'ctxKept': ctx_kept, 'outerPars': outer, 'outerBr': outer_br, 'innerPars': inner, 'ctxSub': ctx_sub, 'src': src, 'code': text, 'post': post}
+            'ctxKept': ctx_kept, 'outerPars': outer, 'outerBr': outer_br, 'innerPars': inner, 'ctxSub': ctx_sub, 'sameText': post == src, 'src': src, 'code': text, 'post': post}
 
 
 def run_cases(cases, kind='put'):
